@@ -67,7 +67,7 @@ var posSuffix = regexp.MustCompile(`@[^@]*$`)
 // function and clause, never by line).
 func stableName(o *Oblig) string {
 	n := o.Name
-	if strings.HasPrefix(n, "post:") || strings.HasPrefix(n, "inv-step:") || strings.HasPrefix(n, "pre:") || strings.HasPrefix(n, "safe:") || strings.HasPrefix(n, "frame") || strings.HasPrefix(n, "dead:") || strings.HasPrefix(n, "cover:") {
+	if strings.HasPrefix(n, "post:") || strings.HasPrefix(n, "inv-step:") || strings.HasPrefix(n, "pre:") || strings.HasPrefix(n, "safe:") || strings.HasPrefix(n, "frame") || strings.HasPrefix(n, "dead:") || strings.HasPrefix(n, "assert:") || strings.HasPrefix(n, "cover:") {
 		n = posSuffix.ReplaceAllString(n, "")
 	}
 	return o.Fn + "::" + n
@@ -131,6 +131,11 @@ func runCheck(prop, tier string, seed int) int {
 	for _, l := range cfg.Lemmas {
 		keys = append(keys, "lemma."+l)
 	}
+	for _, k := range known {
+		if k.Status == "known" {
+			quickFail[k.Obligation] = true
+		}
+	}
 	outDir := filepath.Join(verifDir, "out", "smt", prop)
 	os.RemoveAll(outDir)
 	res := verifyFns(g, keys, outDir, tier, seed)
@@ -166,7 +171,7 @@ func runCheck(prop, tier string, seed int) int {
 			}
 			if !o.ok() {
 				// an obligation tagged for another property is decided by that property's check
-				if tp := tagProp(o.Tag); tp != "" && tp != prop {
+				if tps := tagProps(o.Tag); len(tps) > 0 && !tps[prop] {
 					otherProp++
 					continue
 				}
@@ -355,6 +360,19 @@ func tagProp(tag string) string {
 		return m[1]
 	}
 	return ""
+}
+
+// tagProps: a clause tag names the properties it serves: "C12.bounds.high+C01+C09".
+func tagProps(tag string) map[string]bool {
+	out := map[string]bool{}
+	for _, part := range strings.Split(tag, "+") {
+		if p := tagProp(part + "."); p != "" {
+			out[p] = true
+		} else if p := tagProp(part); p != "" {
+			out[p] = true
+		}
+	}
+	return out
 }
 
 func cmdList(args []string) {
